@@ -30,19 +30,22 @@
 (*   BugKeepForever incomplete roots are never trimmed (Impl invariant)    *)
 (*   StaleSv        the validator list / own index of an incomplete root   *)
 (*                  are those of the moment the entry was made             *)
+(*   BugSendUnverified  a root the node's own AddStateRoot refused is      *)
+(*                  broadcast anyway (the second line of defence of the    *)
+(*                  four vote-counting deviations: their configurations    *)
+(*                  switch it off too, otherwise they only cost liveness)  *)
 (* HeightBack and KeyQuirk are how the code under test behaved when this   *)
 (* model was written (both found by this extension and repaired in /repo:  *)
 (* d3fcc6d, 5827c1d); a refused root used to mark the incomplete root as   *)
-(* sent (repaired: 51bbb30).  StaleSv = TRUE is how the code behaves (an   *)
-(* observation beyond the statement of C03: the node then broadcasts a     *)
-(* root whose witness names the previous set; receivers refuse it).        *)
+(* sent (repaired: 51bbb30); StaleSv and BugSendUnverified were the code's  *)
+(* behaviour too (repaired: ec75270).                                      *)
 (***************************************************************************)
 EXTENDS Integers, Sequences, FiniteSets, TLC
 
 CONSTANTS NN, NodeKey, Keys, Sets, MaxH, MaxD, Win, MaxR, MaxLag, MaxBehind, Base,
           AdvV, AdvR, MaxAdv, MaxRestart, WithTimer,
           HeightBack, KeyQuirk, BugVoteTwice, BugOldSet, BugWrongMsg, BugFewer, BugNoMismatch, BugNoWitness,
-          BugKeepForever, StaleSv
+          BugKeepForever, StaleSv, BugSendUnverified
 
 VARIABLES top, B, nh, sh, kc, acc, inc, val, vh, sent, nadv, nrst, okstep, pend
 vars == <<top, B, nh, sh, kc, acc, inc, val, vh, sent, nadv, nrst, okstep, pend>>
@@ -102,9 +105,9 @@ NewInc(n, h) == [sv |-> KcKeys(kc[n], h), known |-> FALSE, sigs |-> [k \in Keys 
                  snt |-> FALSE, ret |-> -1]
 \* (the validator list and the node's own index are fixed when the entry is made - StaleSv, as the code does - even if
 \*  the entry is made by a vote that arrives before the node stored the designating block)
-GetInc(n, h) == IF inc[n][h] = None THEN NewInc(n, h)
-                ELSE IF StaleSv THEN inc[n][h]
-                ELSE [inc[n][h] EXCEPT !.sv = KcKeys(kc[n], h), !.myidx = acc[n].idx]
+GetInc(n, h) == IF inc[n][h] = None THEN NewInc(n, h) ELSE inc[n][h]
+\* signAndSend refreshes both when the block of that height is there (repair ec75270; StaleSv = the code before it)
+Refresh(n, h, ir) == IF StaleSv THEN ir ELSE [ir EXCEPT !.sv = KcKeys(kc[n], h), !.myidx = acc[n].idx]
 \* signature.go addSignature
 PutSig(ir, pub, s) ==
     LET c == IF ir.sigs[pub] = NoSig \/ ~BugVoteTwice THEN 1 ELSE 2
@@ -137,7 +140,9 @@ TrySend(n, h, ir) ==
     IF IsSender(ir, h) /\ Ready(ir)
     THEN LET p == RootRec(h, "g", WitnessOf(ir, h))
              a == AddRoot(n, p)
-         IN  [ir |-> [ir EXCEPT !.snt = TRUE], val |-> a.val, vh |-> a.vh, out |-> {[t |-> "root", from |-> n, p |-> p]}]
+         IN  IF a.res = "err" /\ ~BugSendUnverified
+             THEN [ir |-> ir, val |-> val[n], vh |-> vh[n], out |-> {}]   \* peers would refuse it just the same
+             ELSE [ir |-> [ir EXCEPT !.snt = TRUE], val |-> a.val, vh |-> a.vh, out |-> {[t |-> "root", from |-> n, p |-> p]}]
     ELSE [ir |-> ir, val |-> val[n], vh |-> vh[n], out |-> {}]
 
 ----------------------------------------------------------------------------
@@ -186,7 +191,7 @@ SvcBlock(n) ==
           THEN /\ inc' = [inc EXCEPT ![n] = Trim(@, h)]
                /\ UNCHANGED <<val, vh, sent>>
           ELSE LET me  == NodeKey[n]
-                   ir1 == [PutSig(GetInc(n, h), me, [k |-> me, ch |-> h, cr |-> "g"]) EXCEPT !.known = TRUE, !.sigs[me].ok = TRUE]
+                   ir1 == [PutSig(Refresh(n, h, GetInc(n, h)), me, [k |-> me, ch |-> h, cr |-> "g"]) EXCEPT !.known = TRUE, !.sigs[me].ok = TRUE]
                    ir2 == [ir1 EXCEPT !.sigs = [k \in Keys |->
                               IF ir1.sigs[k] = NoSig \/ ir1.sigs[k].ok THEN ir1.sigs[k]
                               ELSE [ir1.sigs[k] EXCEPT !.ok = Verify(ir1.sigs[k], k, h)]]]
